@@ -630,4 +630,57 @@ theorem open_write_failure (r : Res) :
   | err e => cases e <;> simp [withWriteFailure]
   | ok o => simp [withWriteFailure]
 
+/-! ## several sessions in one process -/
+
+/-- **Sessions are independent.** Interleave the events of any number of driver objects in any
+order: what session `a` observes (every Open outcome, every getter answer) is exactly what it
+observes when its own events run alone, its final state is the final state of its own events, and
+therefore the framing of its later traffic (`sessionWire`) is a function of ITS hello and ITS
+events only — whichever other session negotiated last. The correspondence run (`c09multi`) checks
+the real drivers against this, two or three alive at once. -/
+theorem sessions_are_independent (frozen reopen : Bool) (a : Nat) (st : Nat → DState)
+    (evs : List (Nat × Ev)) :
+    ((runMulti frozen reopen st evs).filter (fun o => o.1 == a)).map Prod.snd
+      = run frozen reopen (st a) ((evs.filter (fun e => e.1 == a)).map Prod.snd) ∧
+    finalMulti frozen reopen st evs a
+      = final frozen reopen (st a) ((evs.filter (fun e => e.1 == a)).map Prod.snd) ∧
+    ∀ ret xml, sessionWire (finalMulti frozen reopen st evs a) ret xml
+      = sessionWire (final frozen reopen (st a) ((evs.filter (fun e => e.1 == a)).map Prod.snd)) ret xml := by
+  have key : ((runMulti frozen reopen st evs).filter (fun o => o.1 == a)).map Prod.snd
+        = run frozen reopen (st a) ((evs.filter (fun e => e.1 == a)).map Prod.snd) ∧
+      finalMulti frozen reopen st evs a
+        = final frozen reopen (st a) ((evs.filter (fun e => e.1 == a)).map Prod.snd) := by
+    induction evs generalizing st with
+    | nil => exact ⟨rfl, rfl⟩
+    | cons e es ih =>
+      obtain ⟨i, ev⟩ := e
+      have h := ih (stepMulti frozen reopen st (i, ev)).1
+      by_cases hi : i = a
+      · subst hi
+        simp only [runMulti, finalMulti, stepMulti, List.filter_cons, beq_self_eq_true, if_true,
+          List.map_cons, run, final] at h ⊢
+        exact ⟨by rw [h.1], h.2⟩
+      · have hb : (i == a) = false := by simpa using hi
+        have hst : (stepMulti frozen reopen st (i, ev)).1 a = st a := by
+          simp only [stepMulti]
+          have : ¬ a = i := fun h => hi h.symm
+          simp [this]
+        simp only [runMulti, finalMulti, List.filter_cons, hb, Bool.false_eq_true, if_false]
+        have hb2 : ((stepMulti frozen reopen st (i, ev)).2.1 == a) = false := by simpa [stepMulti] using hi
+        simp only [hb2, Bool.false_eq_true, if_false]
+        rw [hst] at h
+        exact h
+  exact ⟨key.1, key.2, fun ret xml => by rw [key.2]⟩
+
+example : ((runMulti false false (fun _ => DState.init)
+    [(0, .openHello (true, [Gen.Netconf.v1Dot0Cap], some [49]) []),
+     (1, .openHello (true, [Gen.Netconf.v1Dot0Cap, Gen.Netconf.v1Dot1Cap], some [50]) []),
+     (0, .probe Gen.Netconf.v1Dot1Cap)]).filter (fun o => o.1 == 0)).map Prod.snd
+    = [.opened .v10, .probed false [Gen.Netconf.v1Dot0Cap] 1 Gen.Netconf.V1Dot0] := by decide
+
+/-- obligation (regenerated fact): no function of driver/netconf assigns a field of the
+package-level pattern table outside its constructor — the one piece of process-wide state the
+sessions share stays read-only -/
+theorem pattern_table_is_read_only : Gen.C09State.patternTableWrites = [] := by decide
+
 end Scrapli.Netconf.C09
